@@ -38,7 +38,23 @@ struct SThread
 	int noSched = 0;
 	uintptr_t stackLo = 0, stackHi = 0;
 	bool started = false;
+	uint32_t vc[32] = {0};       // happens-before vector clock (destruction-race oracle, flavour T)
 };
+
+// ---- happens-before tracking (only when a scenario enables it; at most 32 simulated threads)
+static const int HB_MAXT = 32;
+struct HbClock
+{
+	uint32_t c[HB_MAXT] = {0};
+};
+extern bool g_hbOn;
+void hbAcquire(const HbClock& from);            // self.vc = max(self.vc, from)
+void hbRelease(HbClock& into, bool reset);      // into = (reset ? self.vc : max(into, self.vc)); self.vc[self]++
+void hbFork(SThread* child);
+void hbJoin(SThread* finished);
+void hbAtomic(uintptr_t addr, bool acquire, bool release, bool isStore);
+void hbSyncObj(const void* obj, bool acquire, bool release);
+void hbReset();
 
 extern __thread SThread* self;
 extern __thread int inRt;
